@@ -1,4 +1,5 @@
 import FurikoModel.Model.Indexes
+import FurikoModel.Model.HashEnc
 import FurikoModel.Driver.Proto
 import Std.Data.HashMap
 /-! Line-protocol driver of the `indexes` engine (property C14). Ops: see harness/eng/indexes.go. -/
@@ -133,6 +134,7 @@ def idxStep (s : IdxDS) (t : List String) : IdxDS × String :=
     let pv := newPod (fun _ => h) (unq job) (unq ns) (int! retry) i ((listTok envs ";").map unq)
     (s, encX pv.name ++ " " ++ pv.hashLabel ++ " " ++ pv.retryLabel ++ " " ++ showIndex pv.annotation ++ " " ++
         showList (pv.env.map encX) ";")
+  | ["idx.enc", us] => (s, showList ((listTok us ";").map fun u => Furiko.HashEnc.hashEnc (nat! u)) ";")
   | ["idx.witness70", hs] => (s, b01 (listTok hs ";" = f3WitnessHashes))
   | ["idx.firstdup", hs] => (s, showDup (firstDup (listTok hs ";")))
   | _ => (s, "bad-op")
